@@ -77,11 +77,14 @@ pub struct PipePlan {
     /// pipeline|pipeline: configure stdin/stderr_to on the left operand and stdout on the right one before composing
     #[serde(default)]
     pub early: bool,
+    /// run a clone() of the configured pipeline (the original is dropped unused)
+    #[serde(default)]
+    pub via_clone: bool,
 }
 
 impl Default for PipePlan {
     fn default() -> Self {
-        PipePlan { stages: vec![], shape: Shape::Chain, stdin: PStdin::Inherit, stdout: PStdout::Inherit, stderr_file: false, term: Term::Join, input_len: 0, missing_stage: None, source_len: 0, early: false }
+        PipePlan { stages: vec![], shape: Shape::Chain, stdin: PStdin::Inherit, stdout: PStdout::Inherit, stderr_file: false, term: Term::Join, input_len: 0, missing_stage: None, source_len: 0, early: false, via_clone: false }
     }
 }
 
@@ -107,6 +110,7 @@ pub fn generate(prop: &str, rng: &mut Rng, plan: &mut Plan, _index: u64) {
     pp.stderr_file = !matches!(pp.term, Term::Capture | Term::Communicate) && rng.chance(1, 2);
     pp.shape = *rng.pick(&[Shape::Chain, Shape::Iter, Shape::Pair, Shape::Pair, Shape::New]);
     pp.early = rng.chance(1, 2);
+    pp.via_clone = rng.chance(1, 5);
     let has_input = matches!(pp.stdin, PStdin::Pipe | PStdin::Data | PStdin::File);
     let small = rng.chance(3, 4);
     pp.input_len = if has_input { gen_len(rng, cap, !small).min(if small { 200_000 } else { 2 << 20 }) } else { 0 };
@@ -288,6 +292,23 @@ pub fn run(plan: &Plan, pp: &PipePlan) -> FamOut {
         cfg_err = Box::new(move |p| p.stderr_to(f));
     }
     let p = build(pp, cfg_in, cfg_out, cfg_err);
+    // cloning yields an equivalent pipeline (File redirections are dup'ed: same open file description)
+    let p = if pp.via_clone {
+        let orig = p;
+        // not a library call in the fault plan's sense: clone() is documented to panic when
+        // duplicating a descriptor fails, so descriptor exhaustion is not injected here
+        let r = std::panic::catch_unwind(std::panic::AssertUnwindSafe(|| orig.clone())).map_err(|_| "Pipeline::clone panicked".to_string());
+        drop(orig);
+        match r {
+            Ok(c) => c,
+            Err(pm) => {
+                violate("panic", "panic/in=Pipeline::clone".into(), pm);
+                return FamOut { nontrivial: false };
+            }
+        }
+    } else {
+        p
+    };
     // ---- run the terminator
     let mut got_out: Option<Vec<u8>> = None;
     let mut got_err: Option<Vec<u8>> = None;
